@@ -201,7 +201,19 @@ func c16GenEpoch(p c16Params, dir string) *c16Epoch {
 	ep := ipldbindcode.Epoch{Kind: 4, Epoch: epoch, Subsets: subsetLinks}
 	root := w.put(ep.MarshalCBOR())
 	var out bytes.Buffer
-	if err := carv1.WriteHeader(&carv1.CarHeader{Roots: []cid.Cid{root}, Version: 1}, &out); err != nil {
+	if (p.seed+uint64(p.nBlocks))%3 == 2 {
+		// a legal CARv1 header that is NOT in go-car's canonical form: the same map with `version` before `roots`
+		// (dag-cbor orders keys by length first).  carreader accepts it; what split-car records as the original header
+		// and what the split reader serves must still be these bytes.
+		hdr := []byte{0xa2, 0x67}
+		hdr = append(hdr, "version"...)
+		hdr = append(hdr, 0x01, 0x65)
+		hdr = append(hdr, "roots"...)
+		hdr = append(hdr, 0x81, 0xd8, 0x2a, 0x58, byte(1+len(root.Bytes())), 0x00)
+		hdr = append(hdr, root.Bytes()...)
+		out.Write(binary.AppendUvarint(nil, uint64(len(hdr))))
+		out.Write(hdr)
+	} else if err := carv1.WriteHeader(&carv1.CarHeader{Roots: []cid.Cid{root}, Version: 1}, &out); err != nil {
 		panic(err)
 	}
 	out.Write(w.buf.Bytes())
